@@ -53,7 +53,9 @@ func MustUnHex(s string) []byte {
 func SafeExec(a Area, input string) (out string) {
 	defer func() {
 		if r := recover(); r != nil {
-			_ = debug.Stack()
+			if os.Getenv("VERIF_PANIC_STACK") != "" {
+				fmt.Fprintf(os.Stderr, "panic in Exec(%s): %v\n%s\n", input, r, debug.Stack())
+			}
 			out = "PANIC " + HexS(fmt.Sprint(r))
 		}
 	}()
@@ -95,8 +97,14 @@ func Run(a Area, tier string, seed int64, outDir string, corpusDir string, repla
 		if i := strings.Index(input, " => "); i >= 0 { // corpus/replay lines may carry an old output
 			input = input[:i]
 		}
+		if os.Getenv("VERIF_TRACE_INPUTS") != "" {
+			fmt.Fprintf(os.Stderr, "exec: %s\n", input)
+		}
 		out := SafeExec(a, input)
 		fmt.Fprintf(w, "%s => %s\n", input, out)
+		if st.Cases%64 == 0 || os.Getenv("VERIF_FLUSH_EACH") != "" {
+			w.Flush() // a crash or hang of the process must leave the cases so far on disk
+		}
 		st.Cases++
 		if _, ok := seen[input]; !ok {
 			seen[input] = struct{}{}
